@@ -14,7 +14,8 @@
 //                                              handle_for_frame_with_address_and_symbol) | z... (the same with a return address)
 //                                            (an empty frame list = no stack)
 //   K <thread#> <time_ns> <name> <text> <frames..>   add_marker (Text marker, one string field) + set_marker_stack when frames are given
-//   G <type_name> <kinds>                    register_marker_type; kinds: one letter per field, u = String (unique-string), s = Url / p = FilePath / z = SanitizedString (plain JSON strings),
+//   J <thread#> <time_ns> <name> <text>      add_marker of the static type LayoutText, whose CATEGORY is Category("Layout", blue)
+//   G <type_name> <kinds> [c<cat#>]          register_marker_type (category: category handle #cat, default Other); kinds: one letter per field, u = String (unique-string), s = Url / p = FilePath / z = SanitizedString (plain JSON strings),
 //                                            n = Integer; "-" = no fields; field keys f0, f1, ...                       -> runtime marker type #k
 //   R <thread#> <I|V|B|E> <t1> <t2> <type#> <name> <v0,v1,..|-> <frames..>   add_marker with a runtime-schema marker (one value per field: a word for
 //                                            string fields, an integer for number fields) + set_marker_stack when frames are given
@@ -41,6 +42,33 @@ impl StaticSchemaMarker for TextMarker {
     const UNIQUE_MARKER_TYPE_NAME: &'static str = "Text";
     const CHART_LABEL: Option<&'static str> = Some("{marker.data.name}");
     const TABLE_LABEL: Option<&'static str> = Some("{marker.name} - {marker.data.name}");
+    const FIELDS: &'static [StaticSchemaMarkerField] = &[StaticSchemaMarkerField {
+        key: "name",
+        label: "Details",
+        format: MarkerFieldFormat::String,
+        flags: MarkerFieldFlags::SEARCHABLE,
+    }];
+    fn name(&self, _profile: &mut Profile) -> StringHandle {
+        self.name
+    }
+    fn string_field_value(&self, _field_index: u32) -> StringHandle {
+        self.text
+    }
+    fn number_field_value(&self, _field_index: u32) -> f64 {
+        unreachable!()
+    }
+}
+
+/// A static-schema marker type whose CATEGORY is a category of its own: the first add_marker of this type looks the category up by value.
+#[derive(Debug, Clone)]
+pub struct LayoutMarker {
+    pub name: StringHandle,
+    pub text: StringHandle,
+}
+
+impl StaticSchemaMarker for LayoutMarker {
+    const UNIQUE_MARKER_TYPE_NAME: &'static str = "LayoutText";
+    const CATEGORY: Category<'static> = Category("Layout", CategoryColor::Blue);
     const FIELDS: &'static [StaticSchemaMarkerField] = &[StaticSchemaMarkerField {
         key: "name",
         label: "Details",
@@ -250,8 +278,18 @@ pub fn run(line: &str) -> String {
                         profile.set_marker_stack(th, mh, stack);
                     }
                 }
+                "J" => {
+                    let th = threads[t[1].parse::<usize>().unwrap()];
+                    let name = profile.handle_for_string(if t[3] == "~" { "" } else { t[3] });
+                    let text = profile.handle_for_string(if t[4] == "~" { "" } else { t[4] });
+                    profile.add_marker(th, MarkerTiming::Instant(ns(t[2])), LayoutMarker { name, text });
+                }
                 "G" => {
                     let kinds = if t[2] == "-" { "" } else { t[2] };
+                    let category = match t.get(3) {
+                        Some(c) => hd.cats[c[1..].parse::<usize>().unwrap()],
+                        None => CategoryHandle::OTHER,
+                    };
                     let fields = kinds
                         .chars()
                         .enumerate()
@@ -271,7 +309,7 @@ pub fn run(line: &str) -> String {
                         .collect();
                     let h = profile.register_marker_type(RuntimeSchemaMarkerSchema {
                         type_name: t[1].to_string(),
-                        category: CategoryHandle::OTHER,
+                        category,
                         description: None,
                         locations: MarkerLocations::MARKER_CHART | MarkerLocations::MARKER_TABLE,
                         chart_label: None,
